@@ -10,6 +10,7 @@ import (
 	"sync/atomic"
 	"time"
 
+	"github.com/dadrus/heimdall/internal/x/veriftrace"
 	"github.com/dadrus/heimdall/verifharness/trace"
 )
 
@@ -186,6 +187,16 @@ func RunHistories(hs []History, tracePath string, o Options, parallel int) (map[
 		wg    sync.WaitGroup
 		first error
 	)
+
+	// Every change of the repository takes a little longer than it would (a legal schedule): what a
+	// provider applies as two changes where one is due - the state in between belongs to neither
+	// version - stays visible long enough for the requests running alongside to see it.
+	veriftrace.Sink = func(point string, _ ...any) {
+		if point == "repo.kunlock" {
+			time.Sleep(1500 * time.Microsecond) //nolint:mnd
+		}
+	}
+	defer func() { veriftrace.Sink = nil }()
 
 	total := map[string]int{}
 	jobs := make(chan History)
